@@ -94,10 +94,19 @@ def r41(ctx, prog):
     # the closure of iter_variables clones both components unchanged
     f = ctx_method(prog, 'HashMapContext', 'iter_variables', 'context::IterateVariablesContext')
     if f is not None:
-        cl = prog.closures_of(f.path)
+        # the callable handed to `map`: a closure or a function item
+        captured = []
+
+        def cap(it, fn, t, args, captured=captured):
+            c = t['callee']
+            if c['name'] == 'map' and not c.get('local') and len(args) == 2:
+                captured.append(args[1])
+            return None
+        Interp(prog, hook=cap).paths(f, [SYM('self')])
         good = False
-        if len(cl) == 1:
-            ps = Interp(prog).paths(cl[0], [UNK, ('tuple', (SYM('name'), SYM('value')))])
+        if len(captured) == 1 and captured[0][0] in ('closure', 'fn'):
+            res = Interp(prog).apply_callable(captured[0], [('tuple', (SYM('name'), SYM('value')))], 0)
+            ps = res[1] if (isinstance(res, tuple) and res and res[0] == 'paths') else ([(res, ())] if res is not None else [])
             good = len(ps) == 1 and ps[0][0] == ('tuple', (SYM('name'), SYM('value')))
         ctx.check(good, 'R4.1', 'HashMapContext::iter_variables:closure', 'listing', 'the listing yields (name.clone(), value.clone()) for every entry', span=f.span)
 
